@@ -147,7 +147,7 @@ Definition m_call (kd : ckind) (to0 v0 rsz : Z) (c : fctx) (st : mstate) (ob : l
                    (code_at st to) (msg_static op (c_static c)) (c_depth c + 1) in
   (* handle_insufficient_fund_case *)
   let fail_branch :=
-    if insufficient (balance_of st pranked_caller) fund then
+    if negb (fund =? 0) && insufficient (balance_of st pranked_caller) fund then
       let l := Some (false, true, []) in
       continue st (m_after_call ob 0 l rsz []) l
     else [] in
@@ -193,7 +193,7 @@ Definition m_create (v : Z) (initcode : list Z) (c : fctx) (st : mstate) (ob : l
     let new_addr := new_address cnt in
     let msg := mkCtx new_addr pranked_caller (c_origin c) v initcode false (c_depth c + 1) in
     let fail_branch :=
-      if insufficient (balance_of st0 pranked_caller) v then
+      if negb (v =? 0) && insufficient (balance_of st0 pranked_caller) v then
         let l := Some (true, true, []) in continue st0 (m_after_create ob 0 l) l
       else [] in
     let main :=
